@@ -225,6 +225,9 @@ class SqlalchemyRender:
             lim_up = self.to_expression(t.args[2])
 
             col = sa.between(col0, lim_down, lim_up)
+            if t.alias:
+                alias = self.get_alias(t.alias)
+                col = col.label(alias)
         elif isinstance(t, ast.Interval):
             col = INTERVAL(t.args[0])
             if t.alias:
@@ -293,6 +296,9 @@ class SqlalchemyRender:
             col = ~sub_stmt.exists()
         elif isinstance(t, ast.Case):
             col = self.prepare_case(t)
+            if t.alias:
+                alias = self.get_alias(t.alias)
+                col = col.label(alias)
         else:
             # some other complex object?
             raise NotImplementedError(f'Column {t}')
